@@ -204,7 +204,7 @@ func firstElements(info FnInfo) any {
 
 func init() {
 	Register(&Scenario{
-		Prop: "C05", Name: "mutated-traffic",
+		Prop: "C05", Name: "mutated-traffic", DeadlockDirected: true,
 		NonTrivial: []string{"c05-mutated-message-handled"},
 		Build: func(w *World) {
 			pr := BuildProto(w, ProtoOpt{Peers: 2, MinServers: 2, ClientFeats: true, NoConnect: true})
